@@ -208,7 +208,8 @@ def _elem(path, et):
             "arr": "", "asize": -1, "rc": NONE, "co": NONE, "pg": "N",
             "emb": "N", "ovr": "N", "tsc": "N", "tin": "N", "trl": "N",
             "host": NONE, "ns": NONE, "sup": NONE, "isnull": False,
-            "val": [], "vt": [], "cls": [], "kids": [], "scopes": []}
+            "val": [], "vt": [], "cls": [], "kids": [], "scopes": [],
+            "lvl": path.count("/emb:")}
 
 
 def _emb(x):
@@ -561,9 +562,10 @@ def build(els, i, cx):
         kbs = []
         for j in _kids(els, i, ("kb",)):
             kb = els[j]
-            v = _shape_value(els, j, cx)
             if kb["ty"] == "numeric":      # untyped Python number
                 v = cx.rng.choice([0, 1, -5, 2**40, 1.5, -0.25])
+            else:
+                v = _shape_value(els, j, cx)
             kbs.append((cx.name(kb["nm"]), v))
         return CIMInstanceName(cx.name(e["nm"]), keybindings=kbs,
                                host=cx.host(e["host"]),
@@ -644,16 +646,72 @@ def encode(obj, as_value=False):
     return pywbem.tocimxmlstr(obj)
 
 
+class _Raw:
+    version = 11
+
+
+class _MethodResponseAdapter(object):
+    """requests transport adapter that answers every request with a
+    METHODRESPONSE holding the given PARAMVALUE (no network)"""
+
+    def __init__(self):
+        import requests
+        from requests.adapters import BaseAdapter
+        outer = self
+
+        class _A(BaseAdapter):
+            def send(self, request, **kwargs):
+                resp = requests.Response()
+                resp.status_code = 200
+                resp.reason = "OK"
+                resp.request = request
+                resp.url = request.url
+                resp.raw = _Raw()
+                resp.headers["CIMOperation"] = "MethodResponse"
+                resp.headers["Content-Type"] = 'application/xml; charset="utf-8"'
+                resp._content = outer.body
+                return resp
+
+            def close(self):
+                pass
+        self.body = b""
+        self.adapter = _A()
+        self.conn = pywbem.WBEMConnection("http://c01.invalid:5988",
+                                          default_namespace="root/c01",
+                                          timeout=5)
+        self.conn.session.mount("http://", self.adapter)
+
+    def output_param(self, paramvalue_xml):
+        self.body = (
+            '<?xml version="1.0" encoding="utf-8" ?>'
+            '<CIM CIMVERSION="2.0" DTDVERSION="2.0">'
+            '<MESSAGE ID="1001" PROTOCOLVERSION="1.0"><SIMPLERSP>'
+            '<METHODRESPONSE NAME="M">%s</METHODRESPONSE>'
+            '</SIMPLERSP></MESSAGE></CIM>' % paramvalue_xml).encode("utf-8")
+        _, outparams = self.conn.InvokeMethod("M", CIMClassName("C01_C"))
+        if len(outparams) != 1:
+            raise ValueError("UNCLASSIFIED: %d output parameters" %
+                             len(outparams))
+        return list(outparams.items())[0]
+
+
+_MRA = []
+
+
 def parse(xml, as_value=False):
-    """the real parser; a PARAMVALUE is typed the way InvokeMethod types the
-    output parameters (pywbem._cim_operations: cimvalue(p[2], p[1]))"""
+    """the real parser.  A PARAMVALUE is additionally received the way a
+    client receives it: as the output parameter of the REAL
+    WBEMConnection.InvokeMethod() (response served by a transport adapter),
+    because TupleParser.parse_paramvalue leaves the typing of the value to
+    WBEMConnection._methodcall."""
     tt = xml_to_tupletree_sax(xml, "C01 round trip")
     r = TupleParser().parse_any(tt)
     if as_value:
-        name, ptype, val = r
+        _name, ptype, _raw = r
         emb = tt[1].get("EmbeddedObject", tt[1].get("EMBEDDEDOBJECT"))
-        if ptype != "reference":
-            val = pywbem.cimvalue(val, ptype)
+        if not _MRA:
+            _MRA.append(_MethodResponseAdapter())
+        name, val = _MRA[0].output_param(xml)
         return CIMParameter(name, ptype, value=val,
                             is_array=isinstance(val, list),
                             embedded_object=emb)
@@ -664,6 +722,11 @@ def parse(xml, as_value=False):
     return r
 
 
+def has_unclassified(ev):
+    import json
+    return "UNCLASSIFIED" in json.dumps(ev)
+
+
 def exc_token(exc):
     return type(exc).__name__
 
@@ -672,7 +735,8 @@ def run_obj(obj, mode, as_value=False):
     """-> (event, info): original -> XML -> parsed -> XML -> parsed again"""
     set_mode(mode)
     ev = {"op": "obj", "mode": mode, "enc": "ok", "parse": "", "orig": [],
-          "got": [], "enc2": "", "parse2": "", "got2": [], "x1": "", "x2": ""}
+          "got": [], "enc2": "", "parse2": "", "got2": [], "x1": "", "x2": "",
+          "uncl": False}
     info = {}
     try:
         ev["orig"] = flatten(obj, as_value=as_value)
@@ -716,6 +780,7 @@ def run_obj(obj, mode, as_value=False):
         info["xml2"] = x2
         return ev, info
     finally:
+        ev["uncl"] = has_unclassified(ev)
         set_mode("entity")
 
 
@@ -805,7 +870,10 @@ def run_str(spec, rng):
     if s is None:
         s = conc_string(spec["s"], rng)
     where, depth, mode = spec["where"], spec["depth"], spec["mode"]
-    ev = {"op": "str", "mode": mode, "depth": depth, "where": where,
+    # HOST and KEYVALUE are always written through _text() (entity escaping);
+    # only VALUE goes through _pcdata_nodes()
+    emode = "entity" if depth == 0 and where in ("host", "keyvalue") else mode
+    ev = {"op": "str", "mode": emode, "depth": depth, "where": where,
           "s": classify(s), "srctok": stok(s), "enc": "ok", "parse": "",
           "gottok": "", "got": [], "text": [], "inner": [],
           "x1": "", "x2": "", "stable": ""}
@@ -856,3 +924,301 @@ def run_str(spec, rng):
         return ev, info
     finally:
         set_mode("entity")
+
+
+# ---------------------------------------------------------------------------
+# abstract trees: from the TLC builder machine (CimWireMC) and from the seeded
+# random driver.  Abstract element = dict(k, par, nm, ty, sh, vc, co, pg, asz,
+# rc, emb, ovr, tsc, tin, trl, host, ns, sup [, isarr, scopes])
+# ---------------------------------------------------------------------------
+def E(k, par, nm, **kw):
+    e = {"k": k, "par": par, "nm": nm, "ty": "", "sh": "", "vc": [], "co": "N",
+         "pg": "N", "asz": "N", "rc": "N", "emb": "N", "ovr": "N", "tsc": "N",
+         "tin": "N", "trl": "N", "host": "N", "ns": "N", "sup": "N"}
+    e.update(kw)
+    return e
+
+
+_VC_OF_TOKEN = {"i:min": "min", "i:max": "max", "i:int": "int", "b:T": "T",
+                "b:F": "F", "d:ts": "ts", "d:iv": "iv", "r:frac": "frac",
+                "r:nan": "nan", "r:inf": "inf"}
+
+
+def from_builder(recs, rng):
+    """element records of the TLC builder machine -> abstract elements.
+    Value classes TLC left open (which boundary, which datetime form) are
+    refined at random."""
+    idx = {r["path"]: i for i, r in enumerate(recs)}
+    els = []
+    for r in recs:
+        path = r["path"]
+        if path == "/":
+            par = 0
+        else:
+            parent = path[:path.rstrip("/").rfind("/") + 1]
+            par = idx[parent] + 1
+        e = E(r["et"], par, r["name"], ty=r["type"])
+        if r["et"] in ("prop", "qual", "qdecl", "pval", "kb"):
+            val = list(r["val"])
+            if r["isnull"]:
+                e["sh"] = "null"
+                if r["arr"] == "a":
+                    e["isarr"] = "T"
+            elif r["arr"] == "s":
+                e["sh"] = "scalar"
+            else:
+                e["sh"] = {0: "empty"}.get(len(val)) or (
+                    "".join("n" if v == "~" else "v" for v in val))
+            for k, v in enumerate(val):
+                if v == "~" or v.startswith("@"):
+                    continue
+                if r["type"] in ("string", "char16"):
+                    e["vc"] = list(r["cls"][k])
+                else:
+                    vc = _VC_OF_TOKEN[v]
+                    if vc in ("min", "max") and rng.random() < 0.3:
+                        vc = rng.choice(INT_VC)
+                    if vc == "frac" and rng.random() < 0.5:
+                        vc = rng.choice(REAL_VC)
+                    if vc == "inf" and rng.random() < 0.5:
+                        vc = "ninf"
+                    if vc in ("ts", "iv") and rng.random() < 0.5:
+                        vc = rng.choice(DT_VC)
+                    e["vc"] = [vc]
+                break
+        elif r["et"] in ("parm",):
+            if r["arr"] == "a":
+                e["isarr"] = "T"
+        e["co"] = "N" if r["co"] == "~" else r["co"]
+        e["rc"] = "N" if r["rc"] == "~" else r["rc"]
+        e["sup"] = "N" if r["sup"] == "~" else r["sup"]
+        e["host"] = "N" if r["host"] == "~" else "h"
+        e["ns"] = "N" if r["ns"] == "~" else "n"
+        e["asz"] = "N" if r["asize"] < 0 else str(r["asize"])
+        for a in ("pg", "emb", "ovr", "tsc", "tin", "trl"):
+            e[a] = r[a]
+        if r["scopes"]:
+            e["scopes"] = list(r["scopes"])
+        els.append(e)
+    return els
+
+
+SHAPES = ["null", "scalar", "empty", "v", "n", "vn", "nv", "vv"]
+SCOPES = ["CLASS", "ASSOCIATION", "REFERENCE", "PROPERTY", "METHOD",
+          "PARAMETER", "INDICATION"]
+
+
+class TreeGen:
+    """seeded random abstract trees.  `clean`: avoid the input classes with a
+    recorded design-level counterexample (CR, NULL entry in a non-string
+    array, char16 keybinding, boolean parameter value), so that other
+    failures of the same tree are not hidden behind them."""
+
+    def __init__(self, rng, clean=False, strings=None, maxdepth=3):
+        self.rng = rng
+        self.clean = clean
+        self.strings = strings
+        self.maxdepth = maxdepth
+        self.els = []
+
+    def add(self, e):
+        self.els.append(e)
+        return len(self.els)
+
+    def vc(self, typ):
+        rng = self.rng
+        if typ == "string":
+            if self.strings and rng.random() < 0.6:
+                s = list(rng.choice(self.strings))
+            else:
+                s = [rng.choice(CLASS_NAMES) for _ in range(rng.randint(0, 6))]
+            if self.clean:
+                s = [c for c in s if c != "cr"]
+            return s
+        return rand_vc(typ, rng)
+
+    def valued(self, k, par, nm, depth, types=None):
+        rng = self.rng
+        typ = rng.choice(types or ALL_TYPES)
+        sh = rng.choice(SHAPES)
+        if k in ("qual", "qdecl") and typ == "reference":
+            typ = "string"
+        if k == "pval" and typ == "boolean" and self.clean:
+            typ = "uint16"
+        e = E(k, par, nm, ty=typ, sh=sh)
+        me = self.add(e)
+        if typ == "reference":
+            if k != "pval" and sh not in ("null", "scalar"):
+                e["sh"] = sh = "scalar"
+            for _ in range(sh.count("v") if sh not in ("scalar",) else 1):
+                self.path(me, depth + 1, allow_class=True)
+            if k in ("prop",) and rng.random() < 0.5:
+                e["rc"] = "x"
+            return me
+        if typ == "string" and k in ("prop", "pval") and \
+                depth < self.maxdepth and rng.random() < 0.3:
+            e["emb"] = rng.choice(["instance", "object"])
+            n = 1 if sh == "scalar" else sh.count("v")
+            for _ in range(n):
+                if e["emb"] == "object" and rng.random() < 0.5:
+                    self.klass(me, depth + 1)
+                else:
+                    self.inst(me, depth + 1)
+            return me
+        if self.clean and typ != "string" and "n" in sh and \
+                sh not in ("null",) and k != "pval":
+            e["sh"] = sh = sh.replace("n", "v") if sh != "n" else "v"
+        if sh == "scalar" or "v" in sh:
+            e["vc"] = self.vc(typ)
+        return me
+
+    def attrs(self, i):
+        rng = self.rng
+        e = self.els[i - 1]
+        k = e["k"]
+        if k in ("prop", "meth"):
+            e["co"] = rng.choice(["N", "x", "y"])
+            e["pg"] = rng.choice("NTF")
+        if k in ("prop", "qdecl") and e["ty"] != "reference":
+            if e["sh"] == "null" and rng.random() < 0.5:
+                e["isarr"] = "T"
+            if e["sh"] not in ("null", "scalar") or e.get("isarr") == "T":
+                e["asz"] = rng.choice(["N", "0", "2", "5"])
+        if k == "qual":
+            for a in ("pg", "ovr", "tsc", "tin", "trl"):
+                e[a] = rng.choice("NTF")
+        if k == "qdecl":
+            for a in ("ovr", "tsc", "tin", "trl"):
+                e[a] = rng.choice("NTF")
+            sc = rng.sample(SCOPES, rng.randint(0, 3))
+            e["scopes"] = sc
+            e["noscopes"] = [s for s in rng.sample(SCOPES, 2) if s not in sc]
+
+    def quals(self, par, n):
+        for nm in self.rng.sample("abcdefg", n):
+            i = self.valued("qual", par, nm, 9)
+            self.attrs(i)
+
+    def path(self, par, depth, allow_class=False):
+        rng = self.rng
+        if allow_class and rng.random() < 0.15:
+            e = E("cpath", par, rng.choice("abc"))
+            self.add(e)
+        else:
+            e = E("ipath", par, rng.choice("abc"))
+            me = self.add(e)
+            kts = [t for t in ALL_TYPES + ["numeric"]
+                   if not (self.clean and t == "char16")]
+            for nm in rng.sample("abcdk", rng.randint(1, 3)):
+                typ = rng.choice(kts)
+                if typ == "reference" and depth >= self.maxdepth:
+                    typ = "string"
+                kb = E("kb", me, nm, ty=typ, sh="scalar")
+                ki = self.add(kb)
+                if typ == "reference":
+                    self.path(ki, depth + 1)
+                elif typ != "numeric":
+                    kb["vc"] = self.vc(typ)
+        if rng.random() < 0.6:
+            e["ns"] = "n"
+            if rng.random() < 0.5:
+                e["host"] = "h"
+
+    def inst(self, par, depth):
+        rng = self.rng
+        me = self.add(E("inst", par, rng.choice("abc")))
+        if rng.random() < 0.3:
+            self.quals(me, 1)
+        for nm in rng.sample("abcdefghij", rng.randint(0, 3)):
+            i = self.valued("prop", me, nm, depth)
+            self.attrs(i)
+            if rng.random() < 0.3:
+                self.quals(i, rng.randint(1, 2))
+        if par == 0 and rng.random() < 0.7:
+            self.path(me, 1)
+        return me
+
+    def klass(self, par, depth):
+        rng = self.rng
+        me = self.add(E("class", par, rng.choice("abc"),
+                        sup=rng.choice(["N", "x"])))
+        if rng.random() < 0.5:
+            self.quals(me, rng.randint(1, 2))
+        for nm in rng.sample("abcdefghij", rng.randint(0, 3)):
+            i = self.valued("prop", me, nm, depth)
+            self.attrs(i)
+            if rng.random() < 0.3:
+                self.quals(i, 1)
+        for nm in rng.sample("abc", rng.randint(0, 2)):
+            self.meth(me, nm)
+        return me
+
+    def meth(self, par, nm):
+        rng = self.rng
+        m = E("meth", par, nm,
+              ty=rng.choice([t for t in ALL_TYPES if t != "reference"]))
+        mi = self.add(m)
+        self.attrs(mi)
+        if rng.random() < 0.3:
+            self.quals(mi, 1)
+        for pn in rng.sample("abcd", rng.randint(0, 3)):
+            self.parm(mi, pn)
+        return mi
+
+    def parm(self, par, nm):
+        rng = self.rng
+        p = E("parm", par, nm, ty=rng.choice(ALL_TYPES))
+        pi = self.add(p)
+        if rng.random() < 0.4:
+            p["isarr"] = "T"
+            p["asz"] = rng.choice(["N", "4"])
+        if p["ty"] == "reference":
+            p["rc"] = rng.choice(["N", "x"])
+        if rng.random() < 0.3:
+            self.quals(pi, 1)
+        return pi
+
+    def tree(self, kind=None):
+        rng = self.rng
+        self.els = []
+        k = kind or rng.choice(["inst", "inst", "class", "class", "ipath",
+                                "cpath", "prop", "meth", "parm", "pval",
+                                "qual", "qdecl"])
+        if k == "inst":
+            self.inst(0, 0)
+        elif k == "class":
+            self.klass(0, 0)
+        elif k in ("ipath", "cpath"):
+            self.path(0, 0, allow_class=(k == "cpath"))
+            if k == "cpath":
+                self.els = [E("cpath", 0, rng.choice("abc"),
+                              ns=self.els[0]["ns"], host=self.els[0]["host"])]
+        elif k in ("prop", "pval", "qual", "qdecl"):
+            i = self.valued(k, 0, "a", 0)
+            self.attrs(i)
+            if k == "prop" and rng.random() < 0.3:
+                self.quals(1, rng.randint(1, 2))
+        elif k == "meth":
+            self.meth(0, "a")
+        elif k == "parm":
+            self.parm(0, "a")
+        return self.els
+
+
+def unit_tree(kind, typ, sh, vc, where="root"):
+    """one valued element of the given kind/type/shape, alone (`root`) or as
+    the only child of an instance / class / property"""
+    e = E(kind, 0, "a", ty=typ, sh=sh, vc=list(vc))
+    if where == "root":
+        return [e]
+    if kind == "prop":
+        e["par"] = 1
+        return [E("inst" if where == "inst" else "class", 0, "c"), e]
+    if kind == "qual":
+        e["par"] = 2
+        return [E("inst", 0, "c"), E("prop", 1, "b", ty="uint8", sh="null"), e]
+    if kind == "kb":
+        e["par"] = 1
+        e["sh"] = "scalar"
+        return [E("ipath", 0, "c"), e]
+    raise ValueError(kind)
